@@ -20,6 +20,7 @@ import (
 	"bytes"
 	"context"
 	"crypto/sha256"
+	"encoding/binary"
 	"encoding/hex"
 	"errors"
 	"io"
@@ -481,6 +482,13 @@ func (a *oauth2IntrospectionAuthenticator) calculateCacheKey(ep *endpoint.Endpoi
 	digest.Write(stringx.ToBytes(templatedURL))
 	digest.Write([]byte{0})
 	digest.Write(stringx.ToBytes(token))
+
+	// the ttl can be overridden on the rule level. An entry cached with a longer ttl configured
+	// for one rule must not be used by another rule beyond the shorter ttl configured for it
+	if a.ttl != nil {
+		digest.Write([]byte{0})
+		digest.Write(binary.LittleEndian.AppendUint64(nil, uint64(*a.ttl)))
+	}
 
 	return hex.EncodeToString(digest.Sum(nil))
 }
